@@ -308,6 +308,68 @@ def _module_batch(inst):
     if bad:
         res["violations"].append(dict(what=f"operator typing '{inst['op']}' depends on the other functions of the module ({len(bad)} of {len(members)} functions differ), e.g. "
                                            f"{bad[0][0]} {inst['op']} {bad[0][1]}: expected {bad[0][2]}, got {bad[0][3]}", replay=spec))
+        return res
+    # the conversions inserted for the operands must not depend on the rest of the module either: each function of the batch computes what the
+    # same function compiled alone computes (concrete inputs; differential)
+    from nsl import VM
+    from ..nslref import joint
+
+    def value(t, k):
+        kind = t[0]
+        base = [3, 2, 5, 4][k % 4]
+        comp = t[1]
+        one = (lambda v: float(v) + 0.5) if comp == "float" else (lambda v: v)
+        if kind == "scalar":
+            return one(base)
+        if kind == "vector":
+            return [one(base + i) for i in range(t[2])]
+        return [[one(base + i + 2 * j) for j in range(t[3])] for i in range(t[2])]
+    try:
+        linked = joint.link(r)
+    except Exception as e:  # noqa: BLE001
+        res["violations"].append(dict(what=f"the module of accepted operator functions cannot be linked: {type(e).__name__}: {e}", replay=spec))
+        return res
+    diffs = []
+    for k, (L, R, T) in enumerate(members):
+        single = f"export function f{k}({O3.spell(L)} a, {O3.spell(R)} b) -> {O3.spell(T)} {{ return a {inst['op']} b; }}"
+        try:
+            alone = joint.link(joint.compile_source(single))
+        except joint.Rejected:
+            continue
+        outs = []
+        for prog in (alone, linked):
+            try:
+                with contextlib.redirect_stdout(io.StringIO()):
+                    outs.append(("value", VM.VirtualMachine(prog).Invoke(f"f{k}", a=value(L, 0), b=value(R, 1))))
+            except Exception as e:  # noqa: BLE001
+                outs.append(("raises", type(e).__name__))
+        if outs[0][0] != outs[1][0] or (outs[0][0] == "value" and not joint.close(outs[0][1], outs[1][1])) or (outs[0][0] == "raises" and outs[0][1] != outs[1][1]):
+            diffs.append((O3.spell(L), O3.spell(R), outs[0], outs[1]))
+    if diffs:
+        res["violations"].append(dict(what=f"'{inst['op']}': {len(diffs)} functions compute something else inside the module than compiled alone, e.g. {diffs[0][0]} {inst['op']} {diffs[0][1]}: "
+                                           f"alone {diffs[0][2]}, in the module {diffs[0][3]}", replay=spec))
+        return res
+    # a rejected pair whose mirror image is accepted stays rejected after the accepted ones have been typed
+    k = 0
+    for L in O3.SPELLABLE:
+        for R in O3.SPELLABLE:
+            acc, rt, lo, ro = O3.binary_spec(inst["op"], L, R)
+            acc2 = O3.binary_spec(inst["op"], R, L)[0]
+            if acc is None or acc2 is None or z3.is_true(z3.simplify(acc)) or not z3.is_true(z3.simplify(acc2)):
+                continue
+            k += 1
+            if k > 6:
+                break
+            extra = f"\nexport function g({O3.spell(L)} a, {O3.spell(R)} b) -> void {{ a {inst['op']} b; }}"
+            try:
+                with contextlib.redirect_stdout(io.StringIO()), contextlib.redirect_stderr(io.StringIO()):
+                    r2 = Compiler.Compiler().Compile(src + extra)
+            except Exception:  # noqa: BLE001
+                r2 = None
+            res["paths"] += 1
+            if r2 is not None:
+                res["violations"].append(dict(what=f"{O3.spell(L)} {inst['op']} {O3.spell(R)} is rejected alone but accepted after the accepted combinations have been typed in the same module", replay=spec))
+                return res
     return res
 
 
